@@ -105,8 +105,14 @@ CLAIMED = {
              "RE-TRANSLATED from the source on every run; for every function, line-search behaviour meeting the evaluation contract, epsilon and budget it is proved that status converged "
              "implies the returned (x, fx, gx) is an evaluation of f with max|g|/max(1,|f|) < epsilon (generic + the four solver families), that every direction handed to the line search is a "
              "descent direction (two-loop recursion = positive-definite product form; forced -g fallback), the BFGS secant equation, and for strongly convex quadratics lambda^2 |x-x*|^2 <= |grad|^2 "
-             "hence the statement's accuracy bound given convergence (15 theorems). Correspondence: oracle replay of real runs through trace hook H2 (direction, decisions, done arguments, <= 60 "
-             "iterations per run, 1e-9); the python oracle runs the statement's experiment (status, <= 1500 evaluations counted by an independent wrapper, distance to x*) and recomputes the gradient test.",
+             "hence the statement's accuracy bound given convergence (15 theorems). The line search itself is now a model too: the four initial-step strategies (lsearch0 constant / linear / quadratic / cgdescent with their private "
+             "members), the glue lsearch_t::get and make_lsearch are modelled as coded and composed with C07's model of lsearchk_t::get (imported), so that the line-search slot is instantiated and only f stays an oracle: "
+             "converged_truthful_composed (no line-search hypothesis), success of lsearch_t::get leaves the evaluation at x + t d with t > 0, a refused direction leaves the state untouched, the initial step is the strategy's "
+             "formula (parabola minimisers), it is positive at every call of every run (object invariant), and kernel-checked runs where a stand-alone object hands out a non-positive / non-finite step outside runs "
+             "(52 further theorems). Correspondence: oracle replay of real runs through trace hook H2 (direction, decisions, done arguments, <= 60 "
+             "iterations per run, 1e-9); the python oracle runs the statement's experiment (status, <= 1500 evaluations counted by an independent wrapper, distance to x*) and recomputes the gradient test; family ls0: every initial step, strategy member, "
+             "trial point and stored step of real runs (17 solvers x 4 strategies x 5 searches), of a stand-alone lsearch_t on arbitrary call sequences and of a stand-alone lsearch0 on scripted histories, against the model and "
+             "against independent python formulas.",
         note=NOTE_COMMON + "'Converged within 1500 evaluations' is a floating-point convergence-rate claim: oracle-tested on the statement's problem class, not proved. The line search is an oracle whose contract is C07's theorem."),
     "C02": dict(
         category="proof", technique=TECH_GEN, design="DESIGN.md §4 C02",
